@@ -143,3 +143,41 @@ Theorem c18_int_outside_class : forall sin_o cos_o ch d (s : sinc NumF64 FmtI16)
   exists fr, interpolate NumF64 sin_o cos_o FmtI16 ch s x = Ok fr /\ length fr = ch.
 Proof. exact i16_outside_class. Qed.
 Print Assumptions c18_int_outside_class.
+
+(* ---- the Converter's setters and accessors between outputs (Dsp/SincConv.v, Dsp/SincConvProofs.v) ---- *)
+From Dasp Require Import Dsp.SincConv Dsp.SincConvProofs.
+
+(* set_playback_hz_scale / set_hz_to_hz / set_sample_hz_scale change the ratio and nothing else: source, pull
+   counter, interpolator and the accumulator are untouched whatever the accumulator holds (0, fractional,
+   exactly 1 pending, above 1) *)
+Theorem c18_setters_only_ratio : forall (N : num) (M : fmt N) (c : conv N M) (x a b : T N),
+  let c1 := conv_set_playback_hz_scale N M c x in
+  let c2 := conv_set_hz_to_hz N M c a b in
+  let c3 := conv_set_sample_hz_scale N M c x in
+  (src c1 = src c /\ pulls c1 = pulls c /\ itp c1 = itp c /\ ival c1 = ival c /\ ratio c1 = x) /\
+  (src c2 = src c /\ pulls c2 = pulls c /\ itp c2 = itp c /\ ival c2 = ival c /\ ratio c2 = n_div N a b) /\
+  (src c3 = src c /\ pulls c3 = pulls c /\ itp c3 = itp c /\ ival c3 = ival c /\ ratio c3 = n_div N (n_one N) x).
+Proof. exact setters_only_ratio. Qed.
+Print Assumptions c18_setters_only_ratio.
+
+(* every arithmetic (reals, binary64), every state, every accumulator value: setter calls that announce the
+   ratio already in force, and accessor calls, between the outputs are invisible *)
+Theorem c18_reannounce_invisible : forall (N : num) (M : fmt N) (ch : nat) (sin_o cos_o : T N -> T N) (fuel : nat)
+  (ops : list (cop N)) (c : conv N M),
+  Forall (announces N (ratio c)) ops ->
+  conv_script N M ch sin_o cos_o fuel c ops = conv_run N sin_o cos_o M ch fuel c (count_next N ops).
+Proof. exact conv_script_reannounce. Qed.
+Print Assumptions c18_reannounce_invisible.
+
+(* the ratio-1 clause through any such script (reals, true sin/cos/PI): the k-th `next` still yields source
+   frame k - depth, one source frame pulled per output after the first *)
+Theorem c18_delay_reannounce : forall (ch d : nat), 1 <= d -> forall (source : list (list R)),
+  (forall fr, In fr source -> length fr = ch) -> forall (fuel : nat) (ops : list (cop NumR)), 1 <= fuel ->
+  Forall (announces NumR 1%R) ops ->
+  exists s0 c', sinc_init NumR FmtR ch d = Ok s0 /\
+    conv_script NumR FmtR ch sin cos fuel (conv_new NumR FmtR source s0 1%R) ops
+    = Ok (Some (map (fun j => if j <? d then repeat 0%R ch else nth (j - d) source (repeat 0%R ch))
+                    (seq 0 (count_next NumR ops)), c')) /\
+    pulls c' = count_next NumR ops - 1.
+Proof. exact converter_delay_script. Qed.
+Print Assumptions c18_delay_reannounce.
